@@ -212,6 +212,8 @@ struct MsgCase {
     sname_len: usize,
     file_len: usize,
     opts: Vec<(u8, usize)>,
+    /// one further option with an explicit one-octet value (family "every code x every octet")
+    octet_opt: Option<(u8, u8)>,
 }
 
 fn build_msg(c: &MsgCase) -> dhcppkt::Dhcp {
@@ -258,6 +260,9 @@ fn build_msg(c: &MsgCase) -> dhcppkt::Dhcp {
     for (code, len) in &c.opts {
         other.insert(dhcppkt::DhcpOption::new(*code), pattern(*len, *code));
     }
+    if let Some((code, v)) = c.octet_opt {
+        other.insert(dhcppkt::DhcpOption::new(code), vec![v]);
+    }
     d.options = dhcppkt::DhcpOptions { other };
     d
 }
@@ -294,7 +299,7 @@ fn check_roundtrip(rep: &mut Report, thorough: bool) -> (u64, u64, Vec<Value>) {
             for s in snames {
                 for f in files {
                     for opts in [vec![], vec![(53u8, 1usize), (61, 7)]] {
-                        cases.push(MsgCase { hdr, hlen: *hlen, sname_len: s, file_len: f, opts });
+                        cases.push(MsgCase { hdr, hlen: *hlen, sname_len: s, file_len: f, opts, octet_opt: None });
                     }
                 }
             }
@@ -303,14 +308,30 @@ fn check_roundtrip(rep: &mut Report, thorough: bool) -> (u64, u64, Vec<Value>) {
     // option group: every option set with two header shapes
     for opts in &optsets {
         for (hdr, hlen) in [(0u8, 6u8), (1, 16)] {
-            cases.push(MsgCase { hdr, hlen, sname_len: 0, file_len: 0, opts: opts.clone() });
+            cases.push(MsgCase { hdr, hlen, sname_len: 0, file_len: 0, opts: opts.clone(), octet_opt: None });
+        }
+    }
+    // every option code x every one-octet value (some codes give a one-octet value a meaning of its
+    // own: message type, overload, ...; to the codec they are all just options), with the sname /
+    // file fields empty and in use; and every code with lengths 0, 2, 3, 4
+    for code in 1..=254u8 {
+        for v in 0..=255u8 {
+            for (s, f) in [(0usize, 0usize), (12, 40)] {
+                if !thorough && (s, f) != (0, 0) && v > 7 && v < 0xf8 {
+                    continue;
+                }
+                cases.push(MsgCase { hdr: 0, hlen: 6, sname_len: s, file_len: f, opts: vec![], octet_opt: Some((code, v)) });
+            }
+        }
+        for l in [0usize, 2, 3, 4] {
+            cases.push(MsgCase { hdr: 0, hlen: 6, sname_len: 0, file_len: 0, opts: vec![(code, l)], octet_opt: None });
         }
     }
     let results: Vec<(String, Option<Violation>)> = cases
         .par_iter()
         .map(|c| {
             let m = build_msg(c);
-            let case = json!({"engine":"c12","part":"roundtrip","hdr":c.hdr,"hlen":c.hlen,"sname_len":c.sname_len,"file_len":c.file_len,"opts":c.opts});
+            let case = json!({"engine":"c12","part":"roundtrip","hdr":c.hdr,"hlen":c.hlen,"sname_len":c.sname_len,"file_len":c.file_len,"opts":c.opts,"octet_opt":c.octet_opt.map(|(a, b)| vec![a, b])});
             let maxlen = c.opts.iter().map(|o| o.1).max().unwrap_or(0);
             let class = format!("hdr{}:hlen{}:s{}:f{}:nopt{}:max{}", c.hdr, (c.hlen > 0) as u8 + (c.hlen == 16) as u8, c.sname_len, c.file_len, c.opts.len(), if maxlen > 255 { ">255" } else if maxlen == 255 { "255" } else if maxlen == 0 { "0" } else { "<255" });
             let r = panics::catch(|| {
@@ -336,7 +357,10 @@ fn check_roundtrip(rep: &mut Report, thorough: bool) -> (u64, u64, Vec<Value>) {
                         match ref_decode(&wire) {
                             Err(e) => viol = Some(Violation::new("wire-invalid", format!("independent decoder rejects erbium's encoding: {e}"), case.clone()).sig("part", "roundtrip").sig("long_option", maxlen > 255)),
                             Ok(rd) => {
-                                let want: BTreeMap<u8, Vec<u8>> = c.opts.iter().map(|(code, len)| (*code, pattern(*len, *code))).collect();
+                                let mut want: BTreeMap<u8, Vec<u8>> = c.opts.iter().map(|(code, len)| (*code, pattern(*len, *code))).collect();
+                                if let Some((code, v)) = c.octet_opt {
+                                    want.insert(code, vec![v]);
+                                }
                                 if rd.options != want || rd.hlen != c.hlen || rd.chaddr16[..c.hlen as usize] != pattern(c.hlen as usize, 3)[..] || rd.sname != pattern(c.sname_len, 5) || rd.file != pattern(c.file_len, 9) {
                                     viol = Some(
                                         Violation::new("wire-differs", "independent decoder reads different options/fields from erbium's encoding".to_string(), case.clone())
@@ -1055,7 +1079,7 @@ pub fn run(tier: &str, replay: Option<Value>) -> ! {
     rep.cov("wire_rule", "the real DhcpService (run loop, recvdhcp, real netlink-fed NetInfo, raw transmit) on port 67 on one end of a veth pair in a private network namespace; every history of 2 (thorough 3) messages over {2 clients} x {DISCOVER, REQUEST selecting, REQUEST with ciaddr = own / the other client's / a foreign address} x flags {0, 0x8000} (thorough + 0x0001, 0x7fff, 0xffff) sent as real frames from the other end; every reply frame captured there must verify (lengths, IPv4 and UDP checksum, payload decodes, xid) and be IPv4-addressed to 255.255.255.255 iff the broadcast bit was set, otherwise to the address it assigns; plus a configuration whose replies exceed 548 octets, asked with the client's maximum message size absent / 300 / 576 / 1000 / 1500: the payload on the wire must decode to the reply the handler computes for that request");
     rep.cov("evaluations", e1 + e2 + e3 + e4 + e5);
     rep.cov("distinct_nontrivial", d1 + d2 + d3);
-    rep.cov("rule", "flags: all 65536 values; round trip: header variants x hlen 0..16 x sname/file boundary lengths (full product) + all option sets of size <=3 over 4 (thorough 6) codes x boundary lengths, each also decoded by an independent RFC 2131/3396 decoder; frames: every payload length 0..1472 x 5 patterns x 3 address tuples; checksum sweeps: all 65536 values of the first payload word and of the low half of the source address, for 4 (thorough 11) payload lengths x 2 (3) fills -- every value the one's-complement sum can take for that frame shape. distinct = outcome/shape classes (flags: (observed,expected) pairs; round trip: header/length classes; frames: length x pattern)");
+    rep.cov("rule", "flags: all 65536 values; round trip: header variants x hlen 0..16 x sname/file boundary lengths (full product) + all option sets of size <=3 over 4 (thorough 6) codes x boundary lengths + every option code 1..254 x every one-octet value 0..255 (sname/file empty and in use) and x lengths 0/2/3/4, each also decoded by an independent RFC 2131/3396 decoder; frames: every payload length 0..1472 x 5 patterns x 3 address tuples; checksum sweeps: all 65536 values of the first payload word and of the low half of the source address, for 4 (thorough 11) payload lengths x 2 (3) fills -- every value the one's-complement sum can take for that frame shape. distinct = outcome/shape classes (flags: (observed,expected) pairs; round trip: header/length classes; frames: length x pattern)");
     rep.cov("exhaustive", true);
     rep.cov("parts", json!({"flags": e1, "roundtrip_and_wire_dual": e2, "frames": e3, "checksum_word_sweeps": e4}));
     let mut samples = s2;
